@@ -270,3 +270,101 @@ builder('player_one_down_left_right_transitions', [('moves', LLI), ('offset_d', 
 # game C: the light fails with its probability (free choice), otherwise the robot must obey
 builder('prob_light_break_transitions', [('prob_light_break', REAL), ('offset_ok', INT), ('offset_break', INT)],
         lambda l, w, p, ok, brk, a, b: lits(T_(prob=p, tgt=brk + a * w + b), T_(prob=1 - p, tgt=ok + a * w + b)))
+
+# ---- tile index: Idx(a, b, w) = a*w + b, as a named function so that its range lemma has a trigger
+from pyvc.lemmas import lemma
+Idx = spec('Idx', [INT, INT, INT], INT)
+SPEC['Idx']['unfold'] = lambda a, b, w: Idx(a, b, w) == a * w + b
+lemma('L_Idx_bound', [('a', INT), ('b', INT), ('l', INT), ('w', INT)],
+      lambda a, b, l, w: Implies(And(0 <= a, a < l, 0 <= b, b < w), And(0 <= Idx(a, b, w), Idx(a, b, w) < l * w, Idx(a, b, w) == a * w + b)))
+
+# ---- flattening a board row by row: FlatOff(L, a) = number of elements in the first a rows (the engine's encoding of
+# [x for row in L for x in row]); with rows of equal length w it is a*w
+from pyvc.engine import sha as _sha
+_FO = 'FlatOff_' + _sha(repr(LLI))
+FlatOff = spec(_FO, [LLI, INT], INT)
+SPEC[_FO]['unfold'] = lambda L, a: FlatOff(L, a) == If(a <= 0, IntVal(0), FlatOff(L, a - 1) + L_len(L_arr(L, LLI)[a - 1], LI))
+SPEC['FlatOff'] = SPEC[_FO]
+
+
+def _rows_w(L, w, a):
+    k = Int('k!fo')
+    return ForAll([k], Implies(And(0 <= k, k < a), L_len(L_arr(L, LLI)[k], LI) == w))
+
+
+lemma('L_FlatOff_uniform', [('L', LLI), ('w', INT), ('a', INT)], lambda L, w, a: Implies(_rows_w(L, w, a), FlatOff(L, a) == a * w), ind='a')
+
+# ------------------------------------------------------------------ write_robot_A/B/C up to `game = {...}` (C08, C11): the assembly
+# The three functions share one shape: groups of n_tiles states each, in a fixed order, then the losing and the winning state.
+# GROUPS[X] lists, per group, the builder and the arguments the Roborta rules prescribe (offsets are group indices times n_tiles).
+NT = "n_tiles"
+
+
+def grp(k):
+    return f"{k} * ({NT})"
+
+
+GAMES = {
+    'A': dict(total=4, p1_groups=2, prob_groups=1, params=[('prob_tile_break', REAL)],
+              groups=[('player_two_transitions', ['moves', grp(1), grp(2)]),
+                      ('player_one_down_transitions', [grp(3), f"some_int({grp(4)} + 1)"]),
+                      ('player_one_left_right_transitions', ['moves', grp(3), grp(3)]),
+                      ('prob_tile_break_transitions', ['prob_tile_break', 'loose_tiles', '0', grp(4)])]),
+    'B': dict(total=7, p1_groups=2, prob_groups=4, params=[('prob_tile_break', REAL), ('prob_robot_break', REAL)],
+              groups=[('player_two_transitions', ['moves', grp(1), grp(2)]),
+                      ('player_one_down_transitions', [grp(4), "none_int()"]),
+                      ('player_one_left_right_transitions', ['moves', grp(5), grp(6)]),
+                      ('prob_tile_break_transitions', ['prob_tile_break', 'loose_tiles', '0', grp(7)]),
+                      ('prob_robot_down_break_transitions', ['prob_robot_break', grp(3), f"{grp(7)} + 1"]),
+                      ('prob_robot_left_break_transitions', ['prob_robot_break', grp(3)]),
+                      ('prob_robot_right_break_transitions', ['prob_robot_break', grp(3)])]),
+    'C': dict(total=10, p1_groups=3, prob_groups=6, params=[('prob_tile_break', REAL), ('prob_robot_break', REAL), ('prob_light_break', REAL)],
+              groups=[('player_two_transitions', ['moves', grp(8), grp(9)]),
+                      ('player_one_down_transitions', [grp(5), "none_int()"]),
+                      ('player_one_left_right_transitions', ['moves', grp(6), grp(7)]),
+                      ('player_one_down_left_right_transitions', ['moves', grp(5), grp(6), grp(7)]),
+                      ('prob_tile_break_transitions', ['prob_tile_break', 'loose_tiles', '0', grp(10)]),
+                      ('prob_robot_down_break_transitions', ['prob_robot_break', grp(4), f"{grp(10)} + 1"]),
+                      ('prob_robot_left_break_transitions', ['prob_robot_break', grp(4)]),
+                      ('prob_robot_right_break_transitions', ['prob_robot_break', grp(4)]),
+                      ('prob_light_break_transitions', ['prob_light_break', grp(1), grp(3)]),
+                      ('prob_light_break_transitions', ['prob_light_break', grp(2), grp(3)])]),
+}
+BOARD_OK = (["length >= 1", "width >= 1"] + MOVES_OK + LOOSE_OK +
+            ["len(rewards) == length", "forall(a, 0, length, len(rewards[a]) == width)"])
+for X, G_ in GAMES.items():
+    total = G_['total']
+    pos = []            # positional facts, group by group
+    for gi, (bname, args) in enumerate(G_['groups']):
+        pos.append(f"forall(a, 0, length, forall(b, 0, width, transition_list[{gi} * ({NT}) + Idx(a, b, width)] == Cell_{bname}(length, width, {', '.join(args)}, a, b)))")
+    after_ext = {}
+    after_call0 = dict(hints=["len(transition_list) == 1 * (" + NT + ")", pos[0]])
+    for gi in range(1, len(G_['groups'])):
+        after_ext[gi - 1] = [f"len(transition_list) == {gi + 1} * ({NT})"] + pos[:gi + 1]
+    NTOT = f"{total} * ({NT})"
+    contract(f'write_robot_{X}',
+             params=dict([('my_file', FILE), ('length', INT), ('width', INT), ('moves', LLI), ('rewards', LLI), ('loose_tiles', LLI)] + G_['params']),
+             locals={'my_rewards': LI, 'my_players': LIST(STR), 'my_final_states': LI, 'transition_list': TLT, 'n_tiles': INT, 'loosing_state': INT, 'winning_state': INT,
+                     'reward': INT, 'sublist': LI, 'i': INT, '__addend': TLT},
+             requires=BOARD_OK, modifies={},
+             cut_before_assign='game',
+             use_after_assign={'n_tiles': ["forall(a, forall(b, L_Idx_bound(a, b, length, width)))"],
+                               'my_rewards': ["forall(a, 0, length + 1, L_FlatOff_uniform(rewards, width, a))"]},
+             hints_after_assign={'my_rewards': [f"len(my_rewards) == {NTOT} + 2",
+                                                f"forall(a, 0, length, forall(b, 0, width, my_rewards[Idx(a, b, width)] == rewards[a][b]))",
+                                                f"forall(k, {NT}, {NTOT} + 2, my_rewards[k] == 0)"]},
+             after_call={f"{G_['groups'][0][0]}#0": after_call0},
+             after_extend=after_ext,
+             ensures_at_cut=[f"len(transition_list) == {NTOT} + 2"] + pos + [
+                 f"transition_list[{NTOT}] == [(1, {NTOT})]", f"transition_list[{NTOT} + 1] == [(1, {NTOT} + 1)]",      # absorbing loser and winner
+                 f"my_final_states == [{NTOT} + 1]",                                                                      # the only final state is the winner
+                 f"len(my_players) == {NTOT} + 2",
+                 f"forall(k, 0, {NT}, my_players[k] == 'Player 2')",
+                 f"forall(k, {NT}, {1 + G_['p1_groups']} * ({NT}), my_players[k] == 'Player 1')",
+                 f"forall(k, {1 + G_['p1_groups']} * ({NT}), {NTOT} + 2, my_players[k] == 'Probabilistic')",
+                 f"len(my_rewards) == {NTOT} + 2",
+                 f"forall(a, 0, length, forall(b, 0, width, my_rewards[Idx(a, b, width)] == rewards[a][b]))",                # the tile's reward is collected on the light's turn
+                 f"forall(k, {NT}, {NTOT} + 2, my_rewards[k] == 0)"],
+             list_eq_structural=True,
+             props=['C08', 'C11'])
+
